@@ -8,7 +8,7 @@ LEVEL = "other"
 CONFIGS = ["full", "book", "default"]
 NOT_DECIDED = [
     "exactly-once / in-order delivery under real interleavings (rests on std::sync::mpsc)",
-    "liveness of a blocking SyncSender::send; for sync_channel(0) reading suggests a window (try_send reports Full, pings, the loop drains Empty, then the sender blocks with no wake-up pending) that is schedule-dependent and is not claimed either way",
+    "liveness of a blocking SyncSender::send for bound >= 1 beyond the wake-up discipline of clause 1 (rests on std::sync::mpsc waking a parked sender when the receiver pops); bound 0 is decided by clause 6 (known finding F-C04-1)",
 ]
 EXPLANATION = (
     "Decides on the MIR of sources/channel.rs: (1) in Sender::send, SyncSender::send and SyncSender::try_send every wake-up is "
@@ -16,7 +16,7 @@ EXPLANATION = (
     "in Sender/SyncSender the mpsc handle field is declared (hence dropped) before the ping-on-drop field, neither has a Drop "
     "impl, and PingOnDrop::drop pings; (3) on the receiver side the Msg event carries try_recv's Ok payload, Closed is emitted "
     "exactly on the Disconnected edge, draining stops after Closed and the source returns Remove; (4) the bounded batch re-wakes "
-    "itself (shared with C02.4)."
+    "itself (shared with C02.4); (6) a rendezvous (bound 0) sender either cannot exist or announces itself before parking."
 )
 
 MPSC_SENDS = ("std::sync::mpsc::Sender::<T>::send", "std::sync::mpsc::SyncSender::<T>::send", "std::sync::mpsc::SyncSender::<T>::try_send")
@@ -219,6 +219,29 @@ def run(ck):
     from props import C02
 
     common.import_results(ck, C02, "4", "Channel", "4")
+
+    # ---- clause 6: a blocking send on a rendezvous channel (bound 0) -------------------------------------------------
+    # The receiver only ever try_recv()s, in response to pings. A rendezvous try_recv succeeds only while a sender is
+    # parked in send(); try_send on it never succeeds. So a sender that parks after its last wake-up was consumed is never
+    # served: "a blocking synchronous send completes as long as the loop keeps dispatching" needs, for bound 0, either that
+    # bound 0 never reaches mpsc::sync_channel, or that the sender announces itself (an atomic the receiver reads on its
+    # Empty edge and keeps polling for) before it parks.
+    sc = ck.opt_body("sources::channel::sync_channel")
+    ss = ck.opt_body("SyncSender::send")
+    if sc is None or ss is None:
+        ck.anchor_missing("6", "T3-must-precede", "sources::channel::sync_channel / SyncSender::send")
+    else:
+        mk = [c for c in sc.calls() if c.f and c.f["path"].startswith("std::sync::mpsc::sync_channel") and not sc.is_cleanup(c.bb)]
+        raw_bound = bool(mk) and any(T.resolves_to_arg(sc, c.args[0], 1) and all(r_[0] == "arg" for r_, p_ in sc.resolve(c.args[0])) for c in mk)
+        parks = [c for c in ss.calls() if c.f and c.f["path"] == "std::sync::mpsc::SyncSender::<T>::send" and not ss.is_cleanup(c.bb)]
+        announced = False
+        rmw = [c for c in ss.calls() if c.f and "atomic::Atomic" in c.f["path"] and c.name in ("fetch_add", "store", "swap", "fetch_or") and not ss.is_cleanup(c.bb)]
+        if cl is not None and parks and rmw and all(any(ss.dominates(w.bb, p_.bb) for w in rmw) for p_ in parks):
+            announced = any(c.f and "atomic::Atomic" in c.f["path"] and c.name == "load" for v_ in [cl] + list(f.closures_of(cl)) for c in v_.calls())
+        if not mk or not parks:
+            ck.anchor_missing("6", "T3-must-precede", "mpsc::sync_channel in sync_channel / the blocking mpsc send in SyncSender::send")
+        else:
+            ck.verdict((not raw_bound) or announced, "6", "T3-must-precede", ss, "rendezvous-sender-parks-after-its-last-wake-up", "bound 0 never reaches the mpsc channel, or a sender announces itself before parking and the receiver keeps polling while one is announced", "sync_channel(0) builds a rendezvous channel and SyncSender::send parks in the blocking mpsc send after the only wake-up it issues beforehand (try_send's ping): if the loop consumes that ping and finds the queue Empty before the sender has parked, nothing wakes the channel source again and the send never completes although the loop keeps dispatching", site=ss.where(parks[0].bb))
 
     # ---- clause 5: shared necessary conditions of a ping-backed, loop-dispatched source -------------------------
     common.ping_infra(ck, "5")
